@@ -52,6 +52,21 @@ def make_files(root, tier):
                 f.seek(off); f.write(b"\x5a" * n)
             f.flush(); os.fsync(f.fileno())
         out[name] = p
+    def prealloc_nosync(name, total, writes):
+        p = os.path.join(root, name)
+        with open(p, "wb") as f:
+            os.posix_fallocate(f.fileno(), 0, total)
+            os.fsync(f.fileno())
+            for off, n in writes:
+                f.seek(off); f.write(b"\x6b" * n)
+            f.flush()                      # no fsync: the data sits in the page cache, the extents are still flagged unwritten
+        out[name] = p
+    prealloc_nosync("pre-mid-dirty", 8 << 20, [(2 << 20, 1 << 20)])
+    prealloc_nosync("pre-two-dirty", 4 << 20, [(4096, 8192), (2 << 20, 65536)])
+    p = os.path.join(root, "plain-dirty")
+    with open(p, "wb") as f:                # plain sparse writes, not yet written back (delayed allocation)
+        f.truncate(4 << 20); f.seek(1 << 20); f.write(b"\x6c" * 70000); f.flush()
+    out["plain-dirty"] = p
     prealloc("pre-mid", 65536, [(16384, 32768)])
     prealloc("pre-end", 65536, [(49152, 16384)])
     prealloc("pre-start", 65536, [(0, 8192)])
